@@ -9,7 +9,7 @@ from ..loader import AnalysisError, dotted, norm, walk_no_defs
 from ..minieval import module_constants, MiniEval, Obj, Unsupported
 from ..paths import FP, PE, Executor, Semantics
 from ..report import RuleReport
-from ..rules.common import run_flags
+from ..rules.common import through_locals, run_flags
 
 LEVEL = 'other'
 TECHNIQUE = ('static: must-pass-through of the action call on every successful rule body, store-what-you-raise agreement '
@@ -428,4 +428,65 @@ def r5_decorators(a, tier):
     return rep
 
 
-RULES = [r1_action_on_success, r2_lookup_order, r3_failure_conversion, r4_transparency, r5_decorators]
+CONTAINER_CTORS = {'dict', 'list', 'set', 'defaultdict', 'OrderedDict', 'deque', 'Counter', 'BoundedDict'}
+MUTATING = {'append', 'extend', 'insert', 'add', 'update', 'setdefault', 'pop', 'popitem', 'remove', 'discard', 'clear', '__setitem__'}
+
+
+def r6_per_parse_state(a, tier):
+    rep = RuleReport(
+        'C06.R6',
+        'a parse context that is used for several parses (a generated parser object) starts every parse from the settings of that '
+        'parse: each container attribute the context classes create in __init__ and fill during parsing is created again by the '
+        'functions that start a parse (_reset / _initialize_caches, called from bound()); the action lookup consults the semantics '
+        'object of the current parse (find_semantic_action returns the lookup on self.semantics, never a table that outlives it)',
+        floor=2,
+    )
+    chain = [c for c in a.ct.mro('tatsu.contexts.context.ParseContext') if c.startswith('tatsu.contexts.') and c in a.p.classes]
+    fns = [f for f in a.p.functions.values() if f.cls is not None and f.cls.qualname in chain]
+    starters = {f.name for f in fns if f.name in ('_reset', '_initialize_caches')}
+    if not starters:
+        raise AnalysisError('ParserCore._reset / _initialize_caches not found')
+
+    def is_container(v) -> bool:
+        return isinstance(v, (ast.Dict, ast.List, ast.Set, ast.DictComp, ast.ListComp, ast.SetComp)) or (
+            isinstance(v, ast.Call) and dotted(v.func).split('.')[-1] in CONTAINER_CTORS)
+    created: dict[str, set[str]] = {}
+    for f in fns:
+        for n in walk_no_defs(f.node):
+            if isinstance(n, (ast.Assign, ast.AnnAssign)) and n.value is not None and is_container(n.value):
+                for t in (n.targets if isinstance(n, ast.Assign) else [n.target]):
+                    if isinstance(t, ast.Attribute) and norm(t.value) == 'self':
+                        created.setdefault(t.attr, set()).add(f.name)
+    filled: dict[str, set[str]] = {}
+    for f in fns:
+        for n in walk_no_defs(f.node):
+            attr = None
+            if isinstance(n, (ast.Assign, ast.AugAssign, ast.Delete)):
+                for t in (n.targets if isinstance(n, (ast.Assign, ast.Delete)) else [n.target]):
+                    if isinstance(t, ast.Subscript) and isinstance(t.value, ast.Attribute) and norm(t.value.value) == 'self':
+                        attr = t.value.attr
+            elif isinstance(n, ast.Call) and isinstance(n.func, ast.Attribute) and n.func.attr in MUTATING \
+                    and isinstance(n.func.value, ast.Attribute) and norm(n.func.value.value) == 'self':
+                attr = n.func.value.attr
+            if attr:
+                filled.setdefault(attr, set()).add(f.name)
+    for attr in sorted(set(created) & set(filled)):
+        ok = bool(created[attr] & starters)
+        rep.add({'container_attribute': attr, 'created_in': sorted(created[attr]), 'filled_in': sorted(filled[attr]), 'recreated_when_a_parse_starts': ok})
+        if not ok:
+            where = next(f for f in fns if f.name in filled[attr])
+            rep.fail(where.qualname, f'stale-container:{attr}', f'self.{attr} is created in {sorted(created[attr])} and filled in '
+                     f'{sorted(filled[attr])} but not created again by _reset()/_initialize_caches(): a parser object used for a second parse '
+                     f'keeps what the first parse put there (e.g. the actions of the first parse\'s semantics object)', where.loc)
+    fsa = a.p.func('tatsu.contexts.core.ParserCore.find_semantic_action')
+    rets = [r.value for r in walk_no_defs(fsa.node) if isinstance(r, ast.Return) and r.value is not None]
+    direct = bool(rets) and all(isinstance(through_locals(fsa, r), ast.Call) and dotted(through_locals(fsa, r).func).split('.')[-1] == 'find_cached_semantic_action'
+                                and through_locals(fsa, r).args and norm(through_locals(fsa, r).args[0]) == 'self.semantics' for r in rets)
+    rep.add({'find_semantic_action_returns_lookup_on_current_semantics': direct})
+    if not direct:
+        rep.fail(fsa.qualname, 'lookup-not-on-current-semantics', 'find_semantic_action() returns something else than the lookup '
+                 'find_cached_semantic_action(self.semantics, name) on the semantics object of the current parse', fsa.loc)
+    return rep
+
+
+RULES = [r1_action_on_success, r2_lookup_order, r3_failure_conversion, r4_transparency, r5_decorators, r6_per_parse_state]
